@@ -210,10 +210,16 @@ func (c *Ctx) inRepo(f *ssa.Function) bool {
 func (c *Ctx) credOfBool(b ssa.Value, pol bool, depth int) []Cred {
 	switch v := b.(type) {
 	case *ssa.Phi:
+		// A boolean flag decides a credential only if it distinguishes outcomes:
+		// some operand must be the opposite constant (the "not verified" assignment)
+		// or be a credential check's own result. A phi all of whose operands merely
+		// arrive downstream of a check is not the decision (the check's branch is).
 		var all []Cred
+		excluded, direct := false, false
 		for i, e := range v.Edges {
 			if cb, ok := ConstBool(e); ok {
 				if cb != pol {
+					excluded = true
 					continue // this operand cannot produce the tested value
 				}
 				// a constant that produces the tested value: the edge itself must be verified
@@ -225,13 +231,18 @@ func (c *Ctx) credOfBool(b ssa.Value, pol bool, depth int) []Cred {
 				continue
 			}
 			cs := c.credOf(e, pol, depth+1)
-			if len(cs) == 0 {
+			if len(cs) > 0 {
+				direct = true
+			} else {
 				cs = c.credsAtEdge(v.Block().Preds[i], v.Block())
 			}
 			if len(cs) == 0 {
 				return nil
 			}
 			all = append(all, cs...)
+		}
+		if !excluded && !direct {
+			return nil
 		}
 		return all
 	case *ssa.BinOp:
@@ -330,8 +341,10 @@ func cmpHolds(k int64, op token.Token, n int64) bool {
 func (c *Ctx) credOfIntPhi(phi *ssa.Phi, op token.Token, n int64, depth int) []Cred {
 	var all []Cred
 	seen := false
+	excluded := false
 	for i, e := range phi.Edges {
 		if k, ok := ConstInt(e); ok && !cmpHolds(k, op, n) {
+			excluded = true
 			continue
 		}
 		// nested phi of the same shape (loop-carried): recurse
@@ -354,7 +367,7 @@ func (c *Ctx) credOfIntPhi(phi *ssa.Phi, op token.Token, n int64, depth int) []C
 		all = append(all, cs...)
 		seen = true
 	}
-	if !seen {
+	if !seen || !excluded {
 		return nil
 	}
 	return all
